@@ -525,6 +525,9 @@ class C05(Check):
         specs.append(("designed/rerun-fresh-simulator-control-then_action", K.rerun_control_edit_spec("then_action", True), [0]))
         specs.append(("designed/leak-threshold-drain", K.leak_threshold_spec("drain"), [0]))
         specs.append(("designed/leak-threshold-refill", K.leak_threshold_spec("refill"), [0]))
+        specs.append(("designed/rule-step-1-coincides", K.rule_step_coincides_spec(1), [0, 1]))
+        specs.append(("designed/rule-step-2-coincides", K.rule_step_coincides_spec(2), [0, 1]))
+        specs.append(("designed/isolated-junction-pressure", K.isolated_junction_pressure_spec(), None))
         specs.append(("designed/several-setting-controls-cond", K.multi_setting_spec("cond"), None))
         specs.append(("designed/several-setting-controls-time", K.multi_setting_spec("time"), None))
         specs.append(("designed/prv-commanded-open-reverse-flow", K.prv_open_spec("PRV"), None))
